@@ -640,7 +640,7 @@ func genHistory(enc *json.Encoder, r *vrng, idx int, big bool) *ctlRun {
 		target = thresholds[r.n(21)]
 	}
 	if big {
-		target = 300 + r.n(900)
+		target = 300 + r.n(500)
 	}
 	switch prof {
 	case 0: // fill across a threshold, drains at the boundary, delete, drain
